@@ -389,6 +389,38 @@ Definition quic_w : list instr :=
 Definition Pown_quic : proto :=
   mkProto [quic_c; quic_w; [ISet 1 1; IHalt]] [0;0;0;0] [true;false;true;false] [1] [0;0;0].
 
+(* (4d) DoH exchange: doh_transport.go ExchangeContext/exchange.  Threads: 0 caller, 1 the round-trip goroutine,
+   2 the caller's context.  Objects: 0 bp (pool copy of the query, id zeroed; released before the goroutine starts),
+   1 rawQuery ("dns=<base64>"), 2 reply.  Channel 0 = resChan (cap 1).  Flags: 0 goroutine started, 1 ctx done.
+   The goroutine runs under its OWN 6 s context, so it outlives a cancelled caller; net/http reads req.URL.RawQuery
+   (an unsafe string over rawQuery) when it writes the request, i.e. only once a connection is ready — possibly
+   long after the caller returned (slow dial / TLS handshake).
+   [pooled = false] (the code as it is): rawQuery is make()-allocated: handed over to the goroutine, never released,
+   never recycled (garbage-collected; the environment cannot take it).
+   [pooled = true] (the "pooling optimisation" mutant): rawQuery = pool.GetBuf + defer pool.ReleaseBuf: the caller stays
+   the owner, lends it to the goroutine and releases it on return. *)
+Definition doh_c (pooled : bool) : list instr :=
+  [ IAcq 0; IWr 0;                          (* 0,1: bp := copyMsg(q); bs[0], bs[1] = 0, 0 *)
+    IAcq 1; IRd 0; IWr 1;                   (* 2..4: rawQuery := make / GetBuf; base64 encode bp into it *)
+    IRel 0;                                 (* 5: pool.ReleaseBuf(bp) *)
+    (if pooled then ILend 1 1 else IGive 1 1); ISet 0 1;   (* 6,7: go func(){ u.exchange(ctx6s, unsafeString(rawQuery)) } *)
+    IRecvOrFlag 0 1 14;                     (* 8: select { res := <-resChan ; <-ctx.Done() } *)
+    IWrR;                                   (* 9: r.Header.ID = id of q *)
+    (if pooled then IRel 1 else IGoto 11);  (* 10: deferred ReleaseBuf(rawQuery) — mutant only *)
+    IRdR; IRelR; IHalt;                     (* 11..13: the caller uses and releases the reply *)
+    (if pooled then IRel 1 else IGoto 15);  (* 14: ctx done: return (mutant: deferred ReleaseBuf(rawQuery)) *)
+    IHalt ].
+Definition doh_w : list instr :=
+  [ IWait 0;
+    IChoice 7;                              (* 1: dial / handshake fails: no request is written *)
+    IRd 1;                                  (* 2: connection ready: net/http writes the request line from RawQuery *)
+    IChoice 7;                              (* 3: I/O error, bad status: no reply message *)
+    IAcq 2; IWr 2;                          (* 4,5: read body, UnpackMsg *)
+    ISend 0 2;                              (* 6: resChan <- res{r} *)
+    IHalt ].
+Definition Pown_doh (pooled : bool) : proto :=
+  mkProto [doh_c pooled; doh_w; [ISet 1 1; IHalt]] [0;0;0] [true;pooled;true] [1] [0;0].
+
 (* (5) cache entry recycling: internal/cache/mem.go Get/Store/releaseEntry.  The entry's fields are owned through
    its lock (lock = acquire the entry object 0; TryRLock = ITryAcq).  Threads: 0 Get(k1), 1 eviction of k1
    (otter unmaps, then the deletion listener runs releaseEntry), 2 Store(k2) that may get the recycled entry.
@@ -436,7 +468,8 @@ Definition proto_of (n : nat) : proto :=
   | 0 => Pown_reuse_pinned | 1 => Pown_reuse_fixed | 2 => Pown_quic
   | 3 => Pown_pipeline false | 4 => Pown_pipeline true
   | 5 => Pown_udp | 6 => Pown_tcp | 7 => Pown_http | 8 => Pown_gnet true | 9 => Pown_gnet false
-  | 10 => Pown_cache true | 11 => Pown_cache false | _ => Pown_udp_alias
+  | 10 => Pown_cache true | 11 => Pown_cache false | 12 => Pown_udp_alias
+  | 13 => Pown_doh false | _ => Pown_doh true
   end.
 
 (* schedules of the stream-exchange protocols (caller 0, worker 1, context 2).  [n] = number of caller steps before the
@@ -481,6 +514,23 @@ Definition pipe_sched (k : nat) : list pick :=
   end.
 Definition pipe_verdict (double : bool) (k : nat) : option nat :=
   match own_run (Pown_pipeline double) (own_init (Pown_pipeline double)) (pipe_sched k) with
+  | Some s => Some (viol s)
+  | None => None
+  end.
+
+(* DoH (caller 0, goroutine 1, context 2): 0 reply-first; 1 context ends while the dial is pending -> the caller
+   returns (and, in the pooled mutant, releases rawQuery) -> the connection becomes ready -> the request is written;
+   2 the same with the environment recycling the released buffer in between; 3 the request is written first, the context
+   ends while the reply is awaited, the reply arrives late *)
+Definition doh_sched (pooled : bool) (k : nat) : list pick :=
+  match k with
+  | 0 => rep (T 0 0) 8 ++ rep (T 1 0) 7 ++ rep (T 0 0) 5
+  | 1 => rep (T 0 0) 8 ++ [T 2 0; T 0 0; T 0 0] ++ [T 1 0; T 1 0; T 1 0]
+  | 2 => rep (T 0 0) 8 ++ [T 2 0; T 0 0; T 0 0] ++ (if pooled then [E 1] else []) ++ [T 1 0; T 1 0; T 1 0]
+  | _ => rep (T 0 0) 8 ++ [T 1 0; T 1 0; T 1 0] ++ [T 2 0; T 0 0; T 0 0] ++ rep (T 1 0) 4
+  end.
+Definition doh_verdict (pooled : bool) (k : nat) : option nat :=
+  match own_run (Pown_doh pooled) (own_init (Pown_doh pooled)) (doh_sched pooled k) with
   | Some s => Some (viol s)
   | None => None
   end.
